@@ -36,6 +36,19 @@ fn main() {
         }
         return;
     }
+    if prop == "debug-rename" {
+        let v: serde_json::Value = serde_json::from_str(&std::fs::read_to_string(&args[2]).unwrap()).unwrap();
+        let lib: Vec<(String, String)> = v["library"].as_array().unwrap().iter().map(|p| (p[0].as_str().unwrap().to_string(), p[1].as_str().unwrap().to_string())).collect();
+        let l0 = act::formatted(&lib, "").unwrap();
+        let from = v["from"].as_str().unwrap();
+        println!("=== before\n{}", l0[from]);
+        let server = act::server(&l0, "", true);
+        let line: u32 = args[3].parse().unwrap();
+        let col: u32 = args[4].parse().unwrap();
+        let r = act::rename(&server, from, line, col + 1, v["new_name"].as_str().unwrap());
+        println!("{:#?}", r);
+        return;
+    }
     if prop == "debug-gen" {
         debug_gen(args[2].parse().unwrap(), u64::from_str_radix(&args[3], 16).unwrap(), args[4].parse().unwrap());
         return;
@@ -75,6 +88,7 @@ fn main() {
         "C05" => props::c05::run(&ctx, &mut model, &mut rep),
         "C06" => props::c06::run(&ctx, &mut model, &mut rep),
         "C07" => props::c07::run(&ctx, &mut model, &mut rep),
+        "C08" => props::c08::run(&ctx, &mut model, &mut rep),
         "C09" => props::c09::run(&ctx, &mut model, &mut rep),
         "C10" => props::c10::run(&ctx, &mut model, &mut rep),
         "C15" => props::c15::run(&ctx, &mut model, &mut rep),
